@@ -2755,7 +2755,7 @@ SPEC_FUNCS = {
     'imapsub': lambda eng, node, sq, A, n: VSeq(specs.imapsub(_term(sq), as_arr(A).arr, toz(n))),
     'isperm': lambda eng, node, A, n, base: specs.isperm(as_arr(A).arr, toz(n), toz(base)),
     'lam2': sf_lam2, 'card2': lambda eng, node, st: specs.card2(st.arr),
-    'mvar': _wrap(specs.mvar), 'gorder': _wrap(specs.gorder), 'gnedges': _wrap(specs.gnedges), 'navail_p': _wrap(specs.navail_p),
+    'mvar': _wrap(specs.mvar), 'gorder': _wrap(specs.gorder), 'gnedges': _wrap(specs.gnedges), 'navail_p': _wrap(specs.navail_p), 'bdegl': _wrap(specs.bdegl), 'bdegr': _wrap(specs.bdegr),
     'gedge1': _wrap(specs.gedge1), 'gedge2': _wrap(specs.gedge2),
     'edgepairs': lambda eng, node, g: _edgepairs(toz(g)),
     'gdom': _wrap(specs.gdom), 'grng': _wrap(specs.grng), 'rowlits': _wrap(specs.rowlits), 'collits': _wrap(specs.collits),
